@@ -29,13 +29,17 @@ Section Paging.
   Variable fails : nat -> amap V -> bool.
   (* the callback: new callback state, ids to delete from the same kv *)
   Variable cb : C -> Z * V -> C * list Z.
+  (* what the callback rewrites the record it was shown with (decided on the state before the call): the load callback
+     of the cluster brings a record up to date that is stale against the cached region of the same id *)
+  Variable rw : C -> Z * V -> option V.
   (* a failed LoadRange halves the limit and retries while the halved limit is >= min_limit *)
   Variable min_limit : Z.
 
   Definition step_item (st : amap V * C * Z) (it : Z * V) : amap V * C * Z :=
     let '(m, c, _) := st in
     let '(c', dels) := cb c it in
-    (fold_left del dels m, c', next_id (fst it)).     (* nextID = id + 1 ; f(...) ; deleteRegion each *)
+    let m1 := fold_left del dels m in                 (* nextID = id + 1 ; f(...) ; deleteRegion each *)
+    (match rw c it with Some v' => put m1 (fst it) v' | None => m1 end, c', next_id (fst it)).
 
   Fixpoint page_loop (fuel : nat) (m : amap V) (next limit : Z) (call : nat) (c : C) (acc : list (Z * V))
     : status * list (Z * V) * amap V * C :=
@@ -91,15 +95,16 @@ Definition over_budget (b : option Z) : nat -> amap rv -> bool :=
   fun _ p => match b with Some x => x <? page_bytes p | None => false end.
 
 Definition no_cb {V} : unit -> Z * V -> unit * list Z := fun _ _ => (tt, []).
+Definition no_rw {V C} : C -> Z * V -> option V := fun _ _ => None.
 
 (* LoadStores: pages of minKVRangeLimit, a failing LoadRange is returned at once (no retry: min_limit = limit) *)
 Definition load_stores (m : amap Z) : status * list (Z * Z) :=
-  let '(st, acc, _, _) := page_loop never_fails no_cb store_limit (fuel_for m store_limit) m 0 store_limit O tt [] in
+  let '(st, acc, _, _) := page_loop never_fails no_cb no_rw store_limit (fuel_for m store_limit) m 0 store_limit O tt [] in
   (st, acc).
 
 (* loadRegions over a namespace, with a callback *)
 Definition load_regions {C} (fails : nat -> amap rv -> bool) (cb : C -> Z * rv -> C * list Z) (m : amap rv) (c : C) :=
-  page_loop fails cb region_limit_min (fuel_for m region_limit0) m 0 region_limit0 O c [].
+  page_loop fails cb no_rw region_limit_min (fuel_for m region_limit0) m 0 region_limit0 O c [].
 
 (* --- the region cache the load callback feeds (BasicCluster.CheckAndPutRegion from an empty cluster) --- *)
 Definition intersects (a b : rv) : bool :=
@@ -128,6 +133,16 @@ Definition check_and_put (c : cache) (r : Z * rv) : cache * list Z :=
   if accepts c r
   then (r :: filter (fun o => negb (fst o =? fst r) && negb (intersects (snd o) (snd r))) c, map fst (evicted c r))
   else (c, [fst r]).
+
+(* The callback the cluster and the sync client pass to LoadRegionsOnce (BasicCluster.CheckAndPutLoadedRegion): the cache
+   can outlive a load (a member elected again, a follower following a new leader), so it may hold a newer version of the
+   very region that is read — its save failed or lost against a concurrent one. A record rejected as stale while the
+   cache holds a region of the same id shares its key with the live region: it is rewritten from the cache, not deleted. *)
+Definition put_loaded (c : cache) (r : Z * rv) : cache * list Z :=
+  if accepts c r then check_and_put c r
+  else match find_id c (fst r) with Some _ => (c, []) | None => (c, [fst r]) end.
+Definition rw_loaded (c : cache) (r : Z * rv) : option rv :=
+  if accepts c r then None else find_id c (fst r).
 
 Fixpoint ins_sorted {V} (x : Z * V) (l : list (Z * V)) : list (Z * V) :=
   match l with [] => [x] | y :: t => if fst x <=? fst y then x :: l else y :: ins_sorted x t end.
@@ -158,6 +173,8 @@ Inductive op :=
 | OCrashInFlush (written : bool) (* the process stops inside a flush: the leveldb batch write is atomic — all or nothing *)
 | OLoadOnceIntoCache           (* LoadRegionsOnce(CheckAndPutRegion) of a process whose cache is still empty: the start-up load;
                                   later calls of the same process are skipped (region-storage mode) *)
+| OLoadWarm (cached : cache)   (* LoadRegions(CheckAndPutLoadedRegion) over a cluster that already holds `cached` (direct backend:
+                                  a member that is elected again without a restart reloads from etcd over its warm cache) *)
 | OLoadOnceCorrupt (bad : Z).  (* LoadRegionsOnce while the stored value of region `bad` cannot be unmarshalled: the load
                                   fails at that item, after having delivered every region below it *)
 
@@ -275,6 +292,12 @@ Definition run_op (s : sstate) (o : op) : sstate * obs :=
   | OCrashInFlush written =>
       let s1 := if written then flush_batch s else s in
       (SS (stores s1) (lweight s1) (rweight s1) (base_r s1) (ldb s1) [] 0 (use_rs s1) false (budget s1), BUnit)
+  | OLoadWarm cached =>
+      let rs := use_rs s in
+      let m := regions_of s rs in
+      let '(st, acc, m', c) := page_loop (faults_of s rs) put_loaded rw_loaded region_limit_min (fuel_for m region_limit0)
+                                         m 0 region_limit0 O cached [] in
+      (set_regions s rs m', BCache st acc (sort_by_id c) m')
   | OLoadOnceCorrupt bad =>
       let m := regions_of s (use_rs s) in
       match lookup m bad with
@@ -488,6 +511,19 @@ Fixpoint mon (w : want) (ops : list op) (obs_l : list obs) : option string :=
       | OTick, _ => mon (w_flush w) r br
       | OCrashInFlush _, _ => mon (w_crash w) r br
       | OLoadOnceIntoCache, BSkipped => mon w r br
+      | OLoadWarm cached, BCache st loaded c after =>
+          match st with
+          | RDone =>
+              if negb (pairwise_disjoint c) then Some "C17:prune:cache-overlaps"
+              (* every record left in storage describes the cached region of its id *)
+              else if negb (forallb (fun it => existsb (item_eqb it) c) after) then Some "C17:prune:storage-differs-from-cache"
+              (* a region that is served and had a record before the load still has one *)
+              else if negb (forallb (fun it => negb (existsb (fun x => fst x =? fst it) loaded) || existsb (fun x => fst x =? fst it) after) c)
+                   then Some "C17:prune:record-of-served-region-deleted"
+              else mon (W (w_stores w) (w_lw w) (w_rw w) after true (w_rs w) [] (w_pending w) (filter fst (w_unsure w))) r br
+          | RDiverged => Some "C17:load:endless-scan"
+          | RFailed => mon (W (w_stores w) (w_lw w) (w_rw w) after false (w_rs w) [] (w_pending w) (w_unsure w)) r br
+          end
       | OLoadIntoCache, BCache st loaded c after | OLoadOnceIntoCache, BCache st loaded c after =>
           match st with
           | RDone =>
